@@ -325,7 +325,7 @@ func init() {
 		Level: "exploration",
 		Rule: "offline checker over recorded artefacts + independent codec: (a) every file of the committed corpus (recorded from the pinned build, plus hand-assembled files for what the compiler cannot emit: negative ints/bools/nil constants, NOP, LOOP, every bind byte, 1/2/3-byte varint operands, every opcode 0..30, version 1.0) is loaded through a whole-slice and a one-byte reader and executed; disassembly, output, warnings, blocks, binding and error must equal the recording; the independent decoder must parse it and the independent encoder reproduce it; " +
 			"(b) the dump of every generated program must be parsed by the independent decoder (written from the format comment and the sqlite4 varint document: magic FC 6C, version, name, code, typed constants, positions, line table, big-endian 16-bit jump operands) into exactly the program's in-memory parts, and re-encoded byte for byte; the instruction stream must decode with the recorded opcode numbering. " +
-			"distinct = corpus file name or hash of dump; non-trivial = file loaded / dump decoded",
+			"distinct = corpus file name or hash of dump; non-trivial = file loaded / dump decoded The fresh-dump part also covers the size-directed list (every varint class boundary, 160 kB of code, 70000 lines, a source beyond 16 MiB): decode, re-encode, and the dump must load.",
 		Assumptions:   []string{"corpus/expect.json was recorded from the pinned build's behaviour (cross-checked against a build of commit d0f6a51, see DESIGN §7)", "internal/bc is the written-down meaning of format 1.1"},
 		MinNontrivial: 40,
 		Run: func(c *core.Ctx) {
